@@ -210,6 +210,8 @@ def d3(rep, f, c):
         rep.floor('C14-D3.ascii', 'ASCII threshold comparisons in ascii.rs', m, 5, c)
     k = r_surr.run(rep, f, c, 'R-SURR', lambda nm: nm.startswith('mem::utf16_valid_up_to') or nm.startswith('mem::ensure_utf16_validity'))
     rep.floor('R-SURR', 'surrogate tests in utf16_valid_up_to', k, 2, c)
+    import r_repair
+    rep.floor('R-REPAIR', 'returning paths of ensure_utf16_validity', r_repair.run(rep, f, c), 1, c)
 
 
 def d1(rep, f, c):
